@@ -635,7 +635,7 @@ func (x *X) cutLoop(fr *frame, order []*ssa.BasicBlock, li *loopInfo) {
 	}
 	// a loop without contract in a function under contract: if no back edge can be
 	// taken from the entry state, the loop is its first (partial) pass and nothing is forgotten
-	if spec == nil && x.peel && (len(phis) == 0 || loopValuesStayInside(fr.fn, li)) {
+	if spec == nil && x.peel && (len(phis) == 0 || loopValuesStayInside(fr.fn, li)) && !x.siteAssertsNameLoopLocals(fr.fn, li) {
 		// (a loop with loop-carried variables that are used afterwards gains nothing from a first exact pass)
 		done, rest := x.peelLoop(fr, order, li, entry, entryVals, phis)
 		if done {
@@ -1528,6 +1528,40 @@ func (x *X) peelLoop(fr *frame, order []*ssa.BasicBlock, li *loopInfo, entry *St
 }
 
 // loopValuesStayInside: no value computed in the loop is used outside of it.
+// siteAssertsNameLoopLocals reports whether a site assertion of the function
+// mentions a source-level name that is assigned inside the loop. Such a loop is
+// not peeled: after peeling, the exits of the first pass and of the later
+// passes are joined, and a name would resolve to the value of the later passes
+// on both (the code itself does not use these values after the loop, an
+// assertion at an exit of the loop may).
+func (x *X) siteAssertsNameLoopLocals(fn *ssa.Function, li *loopInfo) bool {
+	if len(x.siteAsserts) == 0 {
+		return false
+	}
+	for _, b := range fn.Blocks {
+		if !li.blocks[b.Index] {
+			continue
+		}
+		for _, in := range b.Instrs {
+			d, ok := in.(*ssa.DebugRef)
+			if !ok {
+				continue
+			}
+			id, ok := d.Expr.(*ast.Ident)
+			if !ok || id.Name == "_" {
+				continue
+			}
+			re := regexp.MustCompile(`\b` + regexp.QuoteMeta(id.Name) + `\b`)
+			for _, sa := range x.siteAsserts {
+				if re.MatchString(sa.Expr) {
+					return true
+				}
+			}
+		}
+	}
+	return false
+}
+
 func loopValuesStayInside(fn *ssa.Function, li *loopInfo) bool {
 	for _, b := range fn.Blocks {
 		if !li.blocks[b.Index] {
